@@ -46,8 +46,9 @@ claim('C18',
       "swapped branch, every cell spelled out (NED metres with rn/rp at the mean point), resampling (knots reproduced, "
       "linear elsewhere, span clipping, column order, sorted). The model is tied to the code by a correspondence run "
       "(same generated table pairs through the model by vm_compute and through the real functions). Four recorded "
-      "findings (known_findings.txt) are exhibited in the model by vm_compute and printed as KNOWN-FINDING. Partial: "
-      "first-order recovery of a perturbation and shortest-arc Slerp are checked numerically only.",
+      "findings (known_findings.txt) are exhibited in the model by vm_compute and printed as KNOWN-FINDING. The "
+      "first-order recovery of a perturbation is proved on the generated perturb_pva / state difference "
+      "(C05_state_diff_recovers_perturbation, checked by C05). Partial: shortest-arc Slerp is checked numerically only.",
       COMMON_NOTE + "Model tie: generator quality bounds the correspondence (distribution in the evidence file).",
       "Rocq proof over hand-written executable model + vm_compute correspondence; generated real-number model for to_180_range",
       "DESIGN.md 4/C18")
@@ -174,8 +175,9 @@ claim('C05',
       "inverse'): explicit inverse of T_out when cos pitch != 0, left-inverse statements in 3D and 2D; d/d eps at 0 of "
       "state_diff(pva, correct_pva(pva, eps x)) = T_out(pva) x for all 9 components (is_derive; |lat|<90, |pitch|<90, "
       "roll/heading off the +-180 cut); perturb-then-correct first-order identity; in 2D the down and VD rows are "
-      "literally zero and correct_pva returns alt and VD unchanged for every x. Partial: the size of the second-order "
-      "remainder is supported numerically (residual-order test) only.",
+      "literally zero and correct_pva returns alt and VD unchanged for every x; state_diff(perturb_pva(pva, eps E), pva) has "
+      "derivative E at 0 for all nine components and every attitude. Partial: the size of the second-order "
+      "remainder is supported numerically (residual-order test incl. attitudes and longitudes next to the +-180 cuts) only.",
       COMMON_NOTE + "scipy Rotation stubs (from_rotvec = closed-form exponential map, as_euler via atan2) validated each run.",
       "Rocq proof over generated real-number model (translator: symbolic tracing); Coquelicot is_derive, field",
       "DESIGN.md 4/C05")
@@ -186,8 +188,10 @@ claim('C06',
       "z(correct_pva(pva, eps x)) = -H x for every row and every x, including the C_nb l and C_nb (omega x l) terms; "
       "z = predicted - measured in NED metres / m/s; R = sd^2 I of matching size; rates without lever arm = plain model. "
       "The Position Jacobian is exact at measured = predicted (mid-point radii make it O(|z| tan lat / R) off elsewhere; "
-      "stated). Absent time -> None and zero residual of noise-free simulated measurements are checked on the "
-      "implementation (finite-difference Jacobians, independent ECEF oracle).",
+      "stated); the three measurement simulators, traced unmodified with symbolic noise, give z = 0 exactly without noise "
+      "and z = -e for an injected error (exactly for the velocity classes, to first order in metres for Position). "
+      "Absent time -> None and multi-row frames are checked on the implementation (finite-difference Jacobians, "
+      "independent ECEF oracle).",
       COMMON_NOTE + "scipy Rotation stubs validated each run.",
       "Rocq proof over generated real-number model (translator: symbolic tracing); Coquelicot is_derive",
       "DESIGN.md 4/C06")
